@@ -185,6 +185,11 @@ class Dispatcher:
             raise AnalysisError('operator dispatch recursion too deep')
         params = [a.arg for a in fn.args.args]  # type: ignore[attr-defined]
         env: Dict[str, Any] = {params[0]: selfobj}
+        # constant defaults of the parameters that are not passed (`round_vals: bool = True`)
+        defaults = fn.args.defaults  # type: ignore[attr-defined]
+        for p, d in zip(params[len(params) - len(defaults):], defaults):
+            if isinstance(d, ast.Constant) and isinstance(d.value, (bool, int, float, type(None))):
+                env[p] = d.value
         for p, a in zip(params[1:], args):
             env[p] = a
         try:
@@ -280,6 +285,8 @@ class Dispatcher:
                 if self.is_instance(obj, c):
                     return True
             return False
+        if isinstance(test, ast.Name) and isinstance(env.get(test.id), bool):
+            return env[test.id]
         if isinstance(test, ast.Compare) and len(test.ops) == 1 and isinstance(test.ops[0], (ast.Eq, ast.NotEq)):
             a, b = test.left, test.comparators[0]
             for x, y in ((a, b), (b, a)):
@@ -334,6 +341,10 @@ class Dispatcher:
     def call(self, n: ast.Call, env: Dict[str, Any]) -> Any:
         f = n.func
         d = dotted(f)
+        if d == 'round' and n.args:
+            a0 = self.ev(n.args[0], env)
+            if isinstance(a0, Poly):
+                return Poly.sym(f'round({a0!r})')          # rounding changes the value: an opaque symbol that equals nothing else
         if d in ('math.radians', 'radians', 'math.cos', 'cos', 'math.sin', 'sin') and len(n.args) == 1 and not n.keywords:
             a = self.ev(n.args[0], env)
             if isinstance(a, AngComp):
